@@ -377,13 +377,18 @@ _ALPHABETS = [
     "\U0001f431\U0001f600\U00010000\U0010ffff",
     "éä",
     ".*+?()[]{}|^$",
+    "\ufeff\u200b\u2028\u0301\u00a0\u200d",
 ]
+# strings whose interesting character sits at a particular position (decoders that strip/normalise)
+SPECIAL_STRINGS = ["\ufeff", "\ufeffabc", "a\ufeff", "\ufeff\ufeff", " \t", "abc ", "\u0301a", "a\u0000b", "\U0010ffff", "\ud7ff\ue000", "\u00e9", "e\u0301", "\r\n", "\x85", "\u2028x"]
 
 
 def rand_string(rnd, maxlen: int = 8) -> str:
     r = rnd.random()
     if r < 0.12:
         return ""
+    if r < 0.2:
+        return rnd.choice(SPECIAL_STRINGS)
     n = rnd.randint(1, maxlen)
     if r < 0.5:
         alpha = rnd.choice(_ALPHABETS[:3])
